@@ -386,6 +386,107 @@ def public_iface(repo, rel, cls, items):
     return sorted(names)
 
 
+# ------------------------------------------------------------------ "can be optimised wherever a plain Function can"
+AUDITED_GLOBS = ('opytimizer/optimizers', 'opytimizer/core/optimizer.py', 'opytimizer/opytimizer.py')
+OPAQUE_CALLS = {'getattr', 'setattr', 'hasattr', 'delattr', 'vars', 'type', 'isinstance', 'dir', 'id', 'callable'}
+
+
+def _is_objective(node):
+    """`function`, `self.function`, `self._function`"""
+    if isinstance(node, ast.Name) and node.id == 'function':
+        return True
+    return _self_attr(node) and node.attr in ('function', '_function')
+
+
+def function_uses(repo, items):
+    """Every attribute the optimizers, the Optimizer base class and Opytimizer read on the objective they are given.  The objective is
+    only ever called `function` (a parameter of that name, `self.function`, `self._function`); it may be passed on (to a method whose
+    parameter at that position is again called `function`, or to user code), stored in `self.function`/`self._function`, formatted, or
+    have an attribute read.  Anything else (aliasing to a local, getattr/vars/type/isinstance on it) is refused."""
+    import os
+    files = []
+    for g in AUDITED_GLOBS:
+        full = os.path.join(repo, g)
+        if os.path.isdir(full):
+            files += [g + '/' + f for f in sorted(os.listdir(full)) if f.endswith('.py') and f != '__init__.py']
+        else:
+            files.append(g)
+    trees = {rel: parse(repo, rel)[0] for rel in files}
+    classes = {}
+    for rel, tree in trees.items():
+        for c in tree.body:
+            if isinstance(c, ast.ClassDef):
+                classes[c.name] = (rel, c)
+
+    def resolve(cname, mname, depth=0):
+        """the method `mname` as seen from class `cname` (single inheritance by class name across the audited files)"""
+        if cname not in classes or depth > 8:
+            return None
+        rel, c = classes[cname]
+        m = find_func(c, mname)
+        if m is not None:
+            return rel, m
+        for b in c.bases:
+            bn = b.id if isinstance(b, ast.Name) else b.attr if isinstance(b, ast.Attribute) else None
+            r = resolve(bn, mname, depth + 1) if bn else None
+            if r:
+                return r
+        return None
+
+    uses = set()
+
+    def visit(rel, cname, node):
+        deco = set()
+        for n in ast.walk(node):
+            if isinstance(n, ast.FunctionDef):
+                for d in n.decorator_list:          # `@function.setter`: the property object, not the objective
+                    deco.update(id(x) for x in ast.walk(d))
+        for n in ast.walk(node):
+            if id(n) in deco:
+                continue
+            if isinstance(n, ast.Attribute) and _is_objective(n.value):
+                if isinstance(n.ctx, (ast.Store, ast.Del)):
+                    raise TranslationError(rel, n, 'the objective is written to: function.%s' % n.attr)
+                uses.add(n.attr)
+            elif isinstance(n, ast.Call):
+                args = list(n.args) + [k.value for k in n.keywords]
+                if isinstance(n.func, ast.Name) and n.func.id in OPAQUE_CALLS and any(_is_objective(a) for a in args):
+                    raise TranslationError(rel, n, 'opaque use of the objective: %s(function, ...)' % n.func.id)
+                if _self_attr(n.func) and any(_is_objective(a) for a in args):
+                    r = resolve(cname, n.func.attr) if cname else None
+                    if r is None:
+                        if n.func.attr in ('pre_evaluation_hook',):
+                            continue
+                        raise TranslationError(rel, n, 'the objective is passed to self.%s, which is not a method of the audited classes' % n.func.attr)
+                    mrel, m = r
+                    ps = [x.arg for x in m.args.args][1:]
+                    for i, a in enumerate(n.args):
+                        if _is_objective(a) and (i >= len(ps) or ps[i] != 'function'):
+                            raise TranslationError(rel, n, 'the objective is passed to %s:%s whose parameter %d is not called `function`'
+                                                   % (mrel, m.name, i))
+                    for k in n.keywords:
+                        if _is_objective(k.value) and k.arg != 'function':
+                            raise TranslationError(rel, n, 'the objective is passed as keyword %r' % k.arg)
+            elif isinstance(n, (ast.Assign, ast.AnnAssign, ast.AugAssign, ast.NamedExpr)):
+                val = n.value
+                tgts = n.targets if isinstance(n, ast.Assign) else [n.target]
+                if val is not None and _is_objective(val):
+                    for t in tgts:
+                        if not (_self_attr(t) and t.attr in ('function', '_function')):
+                            raise TranslationError(rel, n, 'the objective is aliased: %s' % ast.dump(t)[:60])
+
+    for rel, tree in trees.items():
+        for top in tree.body:
+            if isinstance(top, ast.ClassDef):
+                visit(rel, top.name, top)
+            else:
+                visit(rel, None, top)
+    if 'pointer' not in uses:
+        raise TranslationError(REL_FN, None, 'no optimizer reads function.pointer')
+    items.append({'file': 'opytimizer/optimizers/*.py', 'line': 0, 'text': 'attributes read on the objective: %s' % sorted(uses)})
+    return sorted(uses)
+
+
 def generate(repo):
     """-> (coq text, items, errors)"""
     items, errors = [], []
@@ -406,4 +507,5 @@ def generate(repo):
          lambda: '[' + '; '.join(coq_str(n) for n in public_iface(repo, REL_FN, 'Function', items)) + ']')
     emit('weighted_iface', 'list string',
          lambda: '[' + '; '.join(coq_str(n) for n in public_iface(repo, REL, 'WeightedFunction', items)) + ']')
+    emit('function_uses', 'list string', lambda: '[' + '; '.join(coq_str(n) for n in function_uses(repo, items)) + ']')
     return '\n'.join(out) + '\n', items, errors
